@@ -8,7 +8,9 @@
  *             (synclock-weak: the CAS of the lock word is a weak CAS in the source, so the
  *              scheduler may make it fail spuriously; chosen by the check from the source)
  *        conf refcnt <init> <prog0> <prog1> ...      prog = string over {r,d} (retain / release)
- *        sched random <seed> | pct <seed> <depth> | replay <tokens...>
+ *        sched random <seed> | pct <seed> <depth> | replay <tokens...> | prefix <tokens...>
+ *             (prefix: replay the tokens, then continue non-preemptively; prints the candidate set of
+ *              every step as "#enabled <hex masks>" for the systematic explorer in lib/vlib.py)
  *        spurious <cas_permille> <cv_permille>
  *        run                                          -> schedule, events, end, outcome lines
  */
@@ -138,7 +140,7 @@ static void vh_op(int argc, char **argv)
 	if (!strcmp(argv[0], "sched") && argc >= 2) {
 		if (!strcmp(argv[1], "random")) { g_pol = 0; g_seed = vh_ull(argv[2]); }
 		else if (!strcmp(argv[1], "pct")) { g_pol = 1; g_seed = vh_ull(argv[2]); g_depth = atoi(argv[3]); }
-		else { g_pol = 2; g_replay[0] = 0; size_t o = 0;
+		else { g_pol = !strcmp(argv[1], "prefix") ? 3 : 2; g_replay[0] = 0; size_t o = 0;
 			for (int i = 2; i < argc; i++) o += snprintf(g_replay + o, sizeof g_replay - o, "%s ", argv[i]); }
 		printf("ok\n");
 		return;
@@ -150,6 +152,7 @@ static void vh_op(int argc, char **argv)
 		setup();
 		if (g_pol == 0) vs_policy_random(g_seed);
 		else if (g_pol == 1) vs_policy_pct(g_seed, g_depth);
+		else if (g_pol == 3) { vs_policy_prefix(g_replay); vs_trace_enabled(1); }
 		else vs_policy_replay(g_replay);
 		vs_set_spurious(g_sp_cas, g_sp_cv);
 		vs_set_max_steps(5000);
